@@ -64,6 +64,7 @@ pub fn run(line: &Line) -> Outcome {
       foreign_inscribed: true,
       cardinals: 2,
       no_rune_index: !has_rune_index,
+      no_inscription_index: false,
     };
     let w = World::new(spec);
     let dest = w.foreign_address.to_string();
